@@ -168,6 +168,51 @@ for _uf in ("arctan2", "hypot", "logaddexp", "logaddexp2", "power", "maximum", "
         CASES.append((f"{_uf} bcast {_sa}x{_sb}", f"lambda anp, x, y: anp.{_uf}(x, y)", [(_sa, "P"), (_sb, "P")], (0, 1)))
 for _uf in ("sin", "cos", "tan", "exp", "log", "sqrt", "tanh", "sinh", "cosh", "arctan", "arcsinh", "log1p", "expm1", "exp2", "log2", "log10", "sinc", "reciprocal", "abs"):
     CASES.append((f"{_uf} array", f"lambda anp, x: anp.{_uf}(x)", [((2, 2), "P")], (0,)))
+_S = lambda label, expr, specs, argnums=(0,): CASES.append(("scipy:" + label, "lambda anp, sp, " + ", ".join("xyz"[:len(specs)]) + ": " + expr, specs, argnums))
+for _f in ("gamma", "gammaln", "digamma", "psi", "rgamma", "erf", "erfc", "expit", "i0", "i1", "j0", "j1", "y0", "y1"):
+    _S(f"special.{_f}", f"sp.special.{_f}(x)", [((3,), "P")])
+_S("special.logit", "sp.special.logit(x / 4.0)", [((3,), "P")])
+_S("special.erfinv", "sp.special.erfinv(x / 4.0)", [((3,), "P")])
+_S("special.erfcinv", "sp.special.erfcinv(x / 4.0 + 0.1)", [((3,), "P")])
+_S("special.polygamma(1,x)", "sp.special.polygamma(1, x)", [((3,), "P")])
+_S("special.polygamma(2,x)", "sp.special.polygamma(2, x)", [((2,), "P")])
+_S("special.jn(2,x)", "sp.special.jn(2, x)", [((3,), "P")])
+_S("special.yn(1,x)", "sp.special.yn(1, x)", [((3,), "P")])
+_S("special.iv(1,x)", "sp.special.iv(1, x)", [((3,), "P")])
+_S("special.ive(1,x)", "sp.special.ive(1, x)", [((3,), "P")])
+_S("special.beta", "sp.special.beta(x, y)", [((3,), "P"), ((3,), "P")], (0, 1))
+_S("special.betaln bcast", "sp.special.betaln(x, y)", [((2, 3), "P"), ((3,), "P")], (0, 1))
+_S("special.betainc x", "sp.special.betainc(1.5, 2.5, x / 4.0)", [((3,), "P")])
+_S("special.gammainc x", "sp.special.gammainc(1.5, x)", [((3,), "P")])
+_S("special.gammaincc x", "sp.special.gammaincc(2.5, x)", [((3,), "P")])
+_S("special.multigammaln", "sp.special.multigammaln(x + 2.0, 3)", [((2,), "P")])
+_S("special.logsumexp", "sp.special.logsumexp(x)", [((2, 3), "R")])
+_S("special.logsumexp axis", "sp.special.logsumexp(x, axis=1)", [((2, 3), "R")])
+_S("special.logsumexp axis=-2 keepdims", "sp.special.logsumexp(x, axis=-2, keepdims=True)", [((2, 3), "R")])
+_S("special.logsumexp b", "sp.special.logsumexp(x, b=__import__('numpy').array([1.0, 2.0, 0.5]))", [((3,), "R")])
+_S("special.logsumexp tuple axis", "sp.special.logsumexp(x, axis=(0, 2))", [((2, 2, 2), "R")])
+for _mode in ("full", "valid"):
+    _S(f"signal.convolve 1-D {_mode}", f"sp.signal.convolve(x, y, mode='{_mode}')", [((5,), "R"), ((3,), "R")], (0, 1))
+    _S(f"signal.convolve 2-D {_mode}", f"sp.signal.convolve(x, y, mode='{_mode}')", [((3, 4), "R"), ((2, 2), "R")], (0, 1))
+_S("signal.convolve axes (autograd-only kwargs)", "sp.signal.convolve(x, y, axes=([1], [0]), mode='valid')", [((2, 4), "R"), ((3, 2), "R")], (0, 1))
+_S("signal.convolve dot_axes (autograd-only kwargs)", "sp.signal.convolve(x, y, axes=([1], [1]), dot_axes=([0], [0]), mode='full')", [((2, 4), "R"), ((2, 3), "R")], (0, 1))
+_S("linalg.sqrtm", "sp.linalg.sqrtm(anp.dot(x, x.T) + 2 * anp.eye(2))", [((2, 2), "R")])
+_S("linalg.solve_triangular", "sp.linalg.solve_triangular(anp.tril(x) + 3 * anp.eye(3), y, lower=True)", [((3, 3), "R"), ((3, 2), "R")], (0, 1))
+_S("linalg.solve_triangular trans", "sp.linalg.solve_triangular(anp.triu(x) + 3 * anp.eye(3), y, trans='T')", [((3, 3), "R"), ((3,), "R")], (0, 1))
+_S("linalg.solve_sylvester", "sp.linalg.solve_sylvester(x + 3 * anp.eye(2), y + 2 * anp.eye(2), anp.ones((2, 2)))", [((2, 2), "R"), ((2, 2), "R")], (0, 1))
+for _d, _args, _n in (("norm", "x, 0.5, 1.5", 1), ("t", "x, 3.5, 0.5, 1.5", 1), ("gamma", "x, 2.5", 1), ("beta", "x / 4.0, 1.5, 2.5", 1), ("chi2", "x, 3.5", 1)):
+    for _fn in ("pdf", "logpdf", "cdf"):
+        if (_d, _fn) in (("t", "cdf"), ("gamma", "cdf"), ("beta", "cdf"), ("chi2", "cdf"), ("chi2", "pdf")):
+            continue
+        _S(f"stats.{_d}.{_fn}", f"sp.stats.{_d}.{_fn}({_args})", [((3,), "P")])
+_S("stats.norm.logpdf loc/scale", "sp.stats.norm.logpdf(1.3, x, y)", [((3,), "P"), ((3,), "P")], (0, 1))
+_S("stats.norm.logcdf", "sp.stats.norm.logcdf(x, 0.5, 1.5)", [((3,), "P")])
+_S("stats.norm.sf/logsf", "sp.stats.norm.sf(x, 0.5, 1.5) + sp.stats.norm.logsf(x, 0.5, 1.5)", [((3,), "P")])
+_S("stats.poisson.logpmf mu", "sp.stats.poisson.logpmf(__import__('numpy').array([1.0, 2.0, 4.0]), x)", [((3,), "P")])
+_S("stats.multivariate_normal.logpdf x", "sp.stats.multivariate_normal.logpdf(x, __import__('numpy').array([0.5, 1.0]), __import__('numpy').array([[2.0, 0.5], [0.5, 1.0]]))", [((2,), "R")])
+_S("stats.multivariate_normal.logpdf mean/cov", "sp.stats.multivariate_normal.logpdf(__import__('numpy').array([0.3, -0.2]), x, anp.dot(y, y.T) + anp.eye(2))", [((2,), "R"), ((2, 2), "R")], (0, 1))
+_S("stats.multivariate_normal.entropy", "sp.stats.multivariate_normal.entropy(__import__('numpy').zeros(2), anp.dot(x, x.T) + anp.eye(2))", [((2, 2), "R")])
+_S("stats.dirichlet.logpdf", "sp.stats.dirichlet.logpdf(__import__('numpy').array([0.2, 0.3, 0.5]), x)", [((3,), "P")])
 VALS = [0.5, -1.25, 2.0, 0.75, -0.5, 1.5, 3.0, -2.25, 0.25, 1.0, -0.75, 2.5, 1.75, -1.5, 0.625, 2.25, -0.375, 1.125]
 
 
@@ -190,6 +235,16 @@ def run_one(case):
     out = []
     try:
         f0 = eval(src)
+        if label.startswith("scipy:"):   # second namespace: autograd.scipy (traced) vs scipy (plain)
+            import importlib
+            import scipy as _sp_plain
+            import scipy.integrate, scipy.linalg, scipy.signal, scipy.special, scipy.stats  # noqa
+            import autograd.scipy as _sp_traced
+            for sub in ("special", "signal", "linalg", "stats", "integrate"):
+                importlib.import_module("autograd.scipy." + sub)
+            f0_ = f0
+            ag_only = "(autograd-only kwargs)" in label   # e.g. convolve(axes=, dot_axes=): no SciPy counterpart, autograd's own function is the primal
+            f0 = lambda ns, *a_: f0_(anp if ag_only else ns, _sp_traced if (ns is anp or ag_only) else _sp_plain, *a_)
         args = [_mk(s, k, 4 * i) for i, (s, k) in enumerate(spec)]
         for a in argnums:
             f = lambda z: f0(anp, *[z if i == a else v for i, v in enumerate(args)])
